@@ -52,12 +52,45 @@ def _pure(e) -> bool:
     return True
 
 
+def module_constants(mod: ast.Module) -> Dict[str, ast.expr]:
+    """module-level NAME = <number / string / bool literal>, assigned exactly once and never declared global in a function"""
+    counts: Dict[str, int] = {}
+    vals: Dict[str, ast.expr] = {}
+    for s in mod.body:
+        tg = []
+        if isinstance(s, ast.Assign):
+            tg = [t for t in s.targets]
+            v = s.value
+        elif isinstance(s, ast.AnnAssign) and s.value is not None:
+            tg, v = [s.target], s.value
+        else:
+            for n in ast.walk(s):
+                if isinstance(n, ast.Global):
+                    for nm in n.names:
+                        counts[nm] = counts.get(nm, 0) + 2
+            continue
+        for t in tg:
+            for n in ast.walk(t):
+                if isinstance(n, ast.Name):
+                    counts[n.id] = counts.get(n.id, 0) + 1
+            if isinstance(t, ast.Name):
+                lit = v
+                if isinstance(lit, ast.UnaryOp) and isinstance(lit.op, ast.USub):
+                    lit = lit.operand
+                if isinstance(lit, ast.Constant) and isinstance(lit.value, (int, float, str, bool)):
+                    vals[t.id] = v
+    return {k: v for k, v in vals.items() if counts.get(k) == 1}
+
+
 class Normaliser:
-    def __init__(self, resolve_call: Optional[Callable[[ast.Call], Optional[ast.FunctionDef]]] = None, max_inline=4):
+    def __init__(self, resolve_call: Optional[Callable[[ast.Call], Optional[ast.FunctionDef]]] = None, max_inline=4,
+                 consts: Optional[Dict[str, ast.expr]] = None):
+        self.consts = consts or {}
         self.resolve_call = resolve_call
         self.max_inline = max_inline
         self.inlined: List[str] = []
         self.k = 0
+        self.caller_names: set = set()
 
     # ---------------------------------------------------------------- INLINE
     def _inlinable(self, h: ast.FunctionDef) -> bool:
@@ -85,7 +118,7 @@ class Normaliser:
         if any(isinstance(a, ast.Starred) for a in call.args) or any(k.arg is None for k in call.keywords) or len(call.args) > len(pos):
             return None
         self.k += 1
-        pre = f"{h.name}${self.k}$"
+        pre = f"{h.name}__{self.k}__"
         params = pos + [a.arg for a in h.args.kwonlyargs]
         bound = dict(zip(pos, call.args))
         for k in call.keywords:
@@ -94,27 +127,50 @@ class Normaliser:
             bound[k.arg] = k.value
         defaults = dict(zip(pos[len(pos) - len(h.args.defaults):], h.args.defaults)) if h.args.defaults else {}
         defaults.update({a.arg: d for a, d in zip(h.args.kwonlyargs, h.args.kw_defaults) if d is not None})
-        out: List[ast.stmt] = []
-        for p in params:
-            v = bound.get(p, defaults.get(p))
-            if v is None:
-                return None
-            out.append(ast.Assign([ast.Name(pre + p, ast.Store())], copy.deepcopy(v), lineno=call.lineno))
         local = set(params)
+        assigned = set()
         for n in ast.walk(h):
             if isinstance(n, ast.Name) and isinstance(n.ctx, ast.Store):
                 local.add(n.id)
+                assigned.add(n.id)
         body = copy.deepcopy([s for s in h.body if not (isinstance(s, ast.Expr) and isinstance(s.value, ast.Constant))])
+        # names written back by the call: k-th returned name assigned to the caller's variable of the same name
+        back = set()
+        ret = body[-1] if body and isinstance(body[-1], ast.Return) else None
+        if ret is not None and ret.value is not None and target not in (None, "return") and len(target) == 1:
+            rv, tv = ret.value, target[0]
+            rl = rv.elts if isinstance(rv, ast.Tuple) else [rv]
+            tl = tv.elts if isinstance(tv, (ast.Tuple, ast.List)) else [tv]
+            if len(rl) == len(tl):
+                back = {r.id for r, t in zip(rl, tl) if isinstance(r, ast.Name) and isinstance(t, ast.Name) and r.id == t.id}
+        same_arg = {p for p in params if isinstance(bound.get(p), ast.Name) and bound[p].id == p}
+        keepname = set()
+        for L in local:
+            if L in same_arg and (L not in assigned or L in back):
+                keepname.add(L)                    # the caller's variable itself: read only, or updated and handed back under the same name
+            elif L not in params and L in back:
+                keepname.add(L)                    # a result built under the name it is returned to
+            elif L not in self.caller_names and L not in keep:
+                keepname.add(L)                    # no clash with anything in the caller
+        out: List[ast.stmt] = []
+        for p in params:
+            if p in same_arg and p in keepname:
+                continue
+            v = bound.get(p, defaults.get(p))
+            if v is None:
+                return None
+            out.append(ast.Assign([ast.Name(p if p in keepname else pre + p, ast.Store())], copy.deepcopy(v), lineno=call.lineno))
         for s in body:
             for n in ast.walk(s):
                 if isinstance(n, ast.Name):
                     if n.id in keep:
                         n.id = keep[n.id]
-                    elif n.id in local:
+                    elif n.id in local and n.id not in keepname:
                         n.id = pre + n.id
+        self.caller_names |= {(L if L in keepname else pre + L) for L in local}
         if body and isinstance(body[-1], ast.Return):
             r = body.pop()
-            if target is not None and r.value is not None:
+            if target is not None and target != "return" and r.value is not None:
                 body.append(ast.Assign([copy.deepcopy(t) for t in target], r.value, lineno=call.lineno))
             elif target == "return":
                 body.append(r)
@@ -166,7 +222,7 @@ class Normaliser:
         defaults = dict(zip(pos[len(pos) - len(h.args.defaults):], h.args.defaults)) if h.args.defaults else {}
         defaults.update({a.arg: d for a, d in zip(h.args.kwonlyargs, h.args.kw_defaults) if d is not None})
         self.k += 1
-        pre = f"{h.name}${self.k}$"
+        pre = f"{h.name}__{self.k}__"
         local = set(params)
         for n in ast.walk(h):
             if isinstance(n, ast.Name) and isinstance(n.ctx, ast.Store):
@@ -214,6 +270,59 @@ class Normaliser:
         self.inlined.append(h.name)
         return out + body
 
+    def _hoist(self, s) -> Optional[List[ast.stmt]]:
+        """`f(g(self.h(a)))` as a statement -> `t = self.h(a); f(g(t))` when self.h is the only resolvable call nested in the statement's value and
+        everything evaluated before it is side-effect free (names, attributes, constants)"""
+        if not isinstance(s, (ast.Assign, ast.Expr, ast.Return, ast.AugAssign)) or getattr(s, "value", None) is None:
+            return None
+        top = s.value
+        cands = [c for c in ast.walk(top) if isinstance(c, ast.Call) and c is not top and self.resolve_call(c) is not None]
+        if len(cands) != 1:
+            return None
+        c = cands[0]
+        h = self.resolve_call(c)
+        if not self._inlinable(h) or any(isinstance(n, ast.Yield) for n in ast.walk(h)):
+            return None
+        # other calls may only be ancestors of c (they run after it); arguments of c itself must be call-free
+        parents = {}
+        for n in ast.walk(top):
+            for ch in ast.iter_child_nodes(n):
+                parents[ch] = n
+        anc = set()
+        p_ = c
+        while p_ in parents:
+            p_ = parents[p_]
+            anc.add(id(p_))
+        for n in ast.walk(top):
+            if isinstance(n, ast.Call) and n is not c and id(n) not in anc:
+                return None
+            if isinstance(n, (ast.Lambda, ast.ListComp, ast.SetComp, ast.DictComp, ast.GeneratorExp, ast.IfExp, ast.BoolOp, ast.NamedExpr, ast.Await)):
+                return None
+        self.k += 1
+        tmp = f"{h.name}__r{self.k}"
+        self.caller_names.add(tmp)
+
+        class R(ast.NodeTransformer):
+            def visit_Call(self_, n):
+                if n is c:
+                    return ast.Name(tmp, ast.Load())
+                return self_.generic_visit(n)
+        s2 = copy.copy(s)
+        s2.value = R().visit(copy.deepcopy(top)) if False else None
+        # replace by identity (deepcopy would lose `is`): rebuild with a marker
+        c._hoist_marker = True
+
+        class R2(ast.NodeTransformer):
+            def visit_Call(self_, n):
+                if getattr(n, "_hoist_marker", False):
+                    return ast.Name(tmp, ast.Load())
+                return self_.generic_visit(n)
+        newtop = R2().visit(copy.deepcopy(top))
+        del c._hoist_marker
+        s2.value = newtop
+        call_copy = copy.deepcopy(c)
+        return [ast.copy_location(ast.Assign([ast.Name(tmp, ast.Store())], call_copy), s), s2]
+
     def inline_block(self, stmts, depth=0):
         if self.resolve_call is None:
             return stmts
@@ -226,6 +335,10 @@ class Normaliser:
                     if fused is not None:
                         out.extend(self.inline_block(fused, depth + 1))
                         continue
+            hoisted = self._hoist(s)
+            if hoisted is not None:
+                out.extend(self.inline_block(hoisted, depth))
+                continue
             call, target = None, None
             if isinstance(s, ast.Assign) and isinstance(s.value, ast.Call):
                 call, target = s.value, s.targets
@@ -262,8 +375,13 @@ class Normaliser:
                 reads = [{ast.unparse(n) for n in ast.walk(v) if isinstance(n, (ast.Name, ast.Attribute, ast.Subscript))} for v in s.value.elts]
                 if not any(names[a] in reads[b] for a in range(len(names)) for b in range(a + 1, len(names))):
                     for t, v in zip(s.targets[0].elts, s.value.elts):
+                        if isinstance(t, ast.Name) and isinstance(v, ast.Name) and t.id == v.id:
+                            continue                      # x = x
                         out.append(ast.copy_location(ast.Assign([t], v), s))
                     continue
+            if isinstance(s, ast.Assign) and len(s.targets) == 1 and isinstance(s.targets[0], ast.Name) and isinstance(s.value, ast.Name) \
+                    and s.targets[0].id == s.value.id:
+                continue
             if isinstance(s, ast.If):
                 s = copy.copy(s)
                 s.body = self.block(s.body, in_loop)
@@ -271,9 +389,9 @@ class Normaliser:
                 rest = stmts[i + 1:]
                 if not s.orelse and _ends_with_exit(s.body) and rest:
                     s.orelse = self.block(rest, in_loop)
-                    out.append(self.canon_if(s))
+                    out.extend(self.canon_if(s))
                     return out
-                out.append(self.canon_if(s))
+                out.extend(self.canon_if(s))
                 continue
             if isinstance(s, (ast.For, ast.While)):
                 s = copy.copy(s)
@@ -302,16 +420,21 @@ class Normaliser:
             out.append(s)
         return out
 
-    def canon_if(self, s: ast.If) -> ast.stmt:
+    def canon_if(self, s: ast.If) -> List[ast.stmt]:
         body = [x for x in s.body if not isinstance(x, ast.Pass)]
         orelse = [x for x in s.orelse if not isinstance(x, ast.Pass)]
         test = s.test
+        # an arm that only raises is a guard: `if <bad>: raise` followed, un-nested, by the other arm
+        if len(orelse) == 1 and isinstance(orelse[0], ast.Raise) and body:
+            return [ast.copy_location(ast.If(neg(test), orelse, []), s)] + body
+        if len(body) == 1 and isinstance(body[0], ast.Raise) and orelse:
+            return [ast.copy_location(ast.If(test, body, []), s)] + orelse
         if not body and orelse:
             test, body, orelse = neg(test), orelse, []
         elif body and orelse and is_negative(test):
             test, body, orelse = neg(test), orelse, body
         n = ast.If(test, body or [ast.Pass()], orelse)
-        return ast.copy_location(n, s)
+        return [ast.copy_location(n, s)]
 
     def strip_tail_continue(self, block):
         block = list(block)
@@ -326,8 +449,51 @@ class Normaliser:
             if not b and not o:
                 block.pop()
             else:
-                block[-1] = self.canon_if(ast.copy_location(ast.If(s.test, b or [ast.Pass()], o), s))
+                block[-1:] = self.canon_if(ast.copy_location(ast.If(s.test, b or [ast.Pass()], o), s))
         return block
+
+    # ---------------------------------------------------------------- VERSION
+    def version_block(self, stmts):
+        """`v = a; ...; v = f(v)` at the same nesting level: the first definition and its uses up to the redefinition become `v#1`
+        (only plain statements in between: no loop / if / try that assigns or could skip), so that each version is a single assignment"""
+        out = list(stmts)
+        for s in out:
+            for fld in ("body", "orelse", "finalbody"):
+                if hasattr(s, fld) and isinstance(getattr(s, fld), list) and not isinstance(s, (ast.FunctionDef, ast.ClassDef)):
+                    setattr(s, fld, self.version_block(getattr(s, fld)))
+        last_def: Dict[str, int] = {}
+        for i, s in enumerate(out):
+            simple = isinstance(s, (ast.Assign, ast.AugAssign, ast.AnnAssign, ast.Expr, ast.Assert, ast.Pass))
+            if not simple:
+                # a compound statement: forget versions of every name it may assign or read across iterations
+                touched = {n.id for n in ast.walk(s) if isinstance(n, ast.Name)}
+                for nm in list(last_def):
+                    if nm in touched:
+                        del last_def[nm]
+                continue
+            if isinstance(s, ast.Assign) and len(s.targets) == 1 and isinstance(s.targets[0], ast.Name):
+                nm = s.targets[0].id
+                if nm in last_def:
+                    j = last_def[nm]
+                    self.k += 1
+                    new = f"{nm}__v{self.k}"
+                    # rename the earlier definition and every use after it up to and including this statement's right-hand side
+                    out[j].targets[0].id = new
+                    for k2 in range(j + 1, i + 1):
+                        st = out[k2]
+                        for n in ast.walk(st.value if k2 == i else st):
+                            if isinstance(n, ast.Name) and n.id == nm and isinstance(n.ctx, ast.Load):
+                                n.id = new
+                    self.caller_names.add(new)
+                last_def[nm] = i
+            else:
+                # any other store to a name (tuple target, augmented) ends its version chain
+                for n in ast.walk(s):
+                    if isinstance(n, ast.Name) and isinstance(n.ctx, ast.Store) and n.id in last_def:
+                        del last_def[n.id]
+                if isinstance(s, ast.AugAssign) and isinstance(s.target, ast.Name):
+                    last_def.pop(s.target.id, None)
+        return out
 
     # ---------------------------------------------------------------- ALIAS
     def alias(self, fn: ast.FunctionDef):
@@ -349,6 +515,10 @@ class Normaliser:
             counts[p] = counts.get(p, 0) + 1
         stable = lambda e: all(counts.get(x.id, 0) <= 1 for x in ast.walk(e) if isinstance(x, ast.Name))
         subst = {nm: d.value for nm, d in defs.items() if counts.get(nm) == 1 and nm not in params and _pure(d.value) and stable(d.value)}
+        # module-level constants that the function does not shadow
+        for nm, v in self.consts.items():
+            if nm not in counts and nm not in subst:
+                subst[nm] = v
         if not subst:
             return fn
 
@@ -369,7 +539,7 @@ class Normaliser:
                     return self.generic_visit(n)
                 visit_ListComp = visit_SetComp = visit_GeneratorExp = visit_DictComp = _comp
             return R().visit(e)
-        dead = {id(defs[nm]) for nm in subst}
+        dead = {id(defs[nm]) for nm in subst if nm in defs}
 
         class Drop(ast.NodeTransformer):
             def visit_Assign(self, n):
@@ -421,9 +591,11 @@ class Normaliser:
     # ---------------------------------------------------------------- driver
     def function(self, fn: ast.FunctionDef) -> ast.FunctionDef:
         out = copy.deepcopy(fn)
+        self.caller_names = {n.id for n in ast.walk(fn) if isinstance(n, ast.Name)} | {a.arg for a in ast.walk(fn) if isinstance(a, ast.arg)}
         body = [s for s in out.body if not (isinstance(s, ast.Expr) and isinstance(s.value, ast.Constant) and isinstance(s.value.value, str))]
         body = self.inline_block(body)
         out.body = self.block(body)
+        out.body = self.version_block(out.body)
         out = self.alias(out)
         out.body = self.block(out.body)
         ast.fix_missing_locations(out)
@@ -434,13 +606,14 @@ def inline_only(fn: ast.FunctionDef, resolve_call) -> ast.FunctionDef:
     """INLINE + FUSE only (for analyses that do their own control-flow reasoning)"""
     nz = Normaliser(resolve_call)
     out = copy.deepcopy(fn)
+    nz.caller_names = {n.id for n in ast.walk(fn) if isinstance(n, ast.Name)} | {a.arg for a in ast.walk(fn) if isinstance(a, ast.arg)}
     out.body = nz.inline_block([s for s in out.body if not (isinstance(s, ast.Expr) and isinstance(s.value, ast.Constant) and isinstance(s.value.value, str))])
     ast.fix_missing_locations(out)
     out._inlined = list(nz.inlined)
     return out
 
 
-def class_resolver(mod: ast.Module, cls: Optional[ast.ClassDef] = None, exclude=()):
+def class_resolver(mod: ast.Module, cls: Optional[ast.ClassDef] = None, exclude=(), module_funcs=True):
     """resolve self.m(...) / cls.m(...) in `cls` (and module-level base classes) and f(...) to module-level functions"""
     classes = {c.name: c for c in mod.body if isinstance(c, ast.ClassDef)}
     funcs = {f.name: f for f in mod.body if isinstance(f, ast.FunctionDef)}
@@ -461,7 +634,7 @@ def class_resolver(mod: ast.Module, cls: Optional[ast.ClassDef] = None, exclude=
         f = call.func
         if isinstance(f, ast.Attribute) and isinstance(f.value, ast.Name) and f.value.id in ("self", "cls"):
             return None if f.attr in exclude else ms.get(f.attr)
-        if isinstance(f, ast.Name):
+        if isinstance(f, ast.Name) and module_funcs:
             return None if f.id in exclude else funcs.get(f.id)
         return None
     return resolve
